@@ -99,11 +99,33 @@ class ASane(AObj):
         return f'<sane {self.hint!r}>'
 
 
+class AFrozenDict(AObj):
+    """Abstract empty ``FrozenDict`` (hashable, every lookup misses)."""
+
+    def get(self, key, default=None):
+        return default
+
+    def __contains__(self, key):
+        return False
+
+    def __len__(self):
+        return 0
+
+    def __iter__(self):
+        return iter(())
+
+    def __repr__(self):
+        return '<FrozenDict {}>'
+
+
 class AConf(AObj):
     def __init__(self, is_random: bool = True, strategy=None, **kw):
         self.is_random = is_random
         self.strategy = strategy
         self.is_debug = False
+        self.hint_overrides = AFrozenDict()
+        self.is_pep484_tower = False
+        self.is_color = None
         for k, v in kw.items():
             setattr(self, k, v)
 
